@@ -245,3 +245,120 @@ pub mod offers {
 		)
 	}
 }
+
+/// Onion construction / failure-packet helpers of [`crate::ln::onion_utils`] (crate-private), for
+/// the C14 differential: per-hop shared secrets and serialized payloads behind
+/// `create_payment_onion`, failure packet origination / relaying / sender-side decoding.
+pub mod onion {
+	#![allow(missing_docs)]
+	use crate::ln::channelmanager::{HTLCSource, PaymentId};
+	use crate::ln::msgs::UpdateFailHTLC;
+	use crate::ln::onion_utils::{self, AttributionData, HTLCFailReason, LocalHTLCFailureReason};
+	use crate::ln::outbound_payment::RecipientOnionFields;
+	use crate::ln::types::ChannelId;
+	use crate::routing::router::Path;
+	use crate::types::payment::PaymentPreimage;
+	use crate::util::errors::APIError;
+	use crate::util::logger::Logger;
+	use alloc::vec::Vec;
+	use bitcoin::secp256k1::{self, Secp256k1, SecretKey};
+
+	/// Shared secrets of `construct_onion_keys` (one per hop of the outer onion).
+	pub fn shared_secrets<T: secp256k1::Signing>(
+		secp_ctx: &Secp256k1<T>, path: &Path, session_priv: &SecretKey,
+	) -> Vec<[u8; 32]> {
+		onion_utils::verif::shared_secrets(secp_ctx, path, session_priv)
+	}
+
+	/// Serialized hop payloads, first-hop amount and cltv of `build_onion_payloads`.
+	pub fn payloads(
+		path: &Path, recipient_onion: &RecipientOnionFields, cur_block_height: u32,
+		keysend_preimage: &Option<PaymentPreimage>,
+	) -> Result<(Vec<Vec<u8>>, u64, u32), APIError> {
+		onion_utils::verif::payloads(path, recipient_onion, cur_block_height, keysend_preimage)
+	}
+
+	/// `build_failure_packet` (what the failing hop sends back): (data, attribution data).
+	pub fn build_failure_packet(
+		shared_secret: &[u8; 32], failure_code: u16, failure_data: &[u8], hold_time: u32,
+	) -> (Vec<u8>, Option<AttributionData>) {
+		let reason: LocalHTLCFailureReason = failure_code.into();
+		let p = onion_utils::build_failure_packet(shared_secret, reason, failure_data, hold_time);
+		(p.data, p.attribution_data)
+	}
+
+	/// What a forwarding hop does with a failure received from downstream
+	/// (`HTLCFailReason::from_msg(..).get_encrypted_failure_packet`).
+	pub fn relay_failure_packet(
+		shared_secret: &[u8; 32], data: Vec<u8>, attribution_data: Option<AttributionData>,
+		hold_time: u32,
+	) -> (Vec<u8>, Option<AttributionData>) {
+		let msg = UpdateFailHTLC {
+			channel_id: ChannelId([0; 32]),
+			htlc_id: 0,
+			reason: data,
+			attribution_data,
+		};
+		let mut reason = HTLCFailReason::from_msg(&msg);
+		reason.set_hold_time(hold_time);
+		let p = reason.get_encrypted_failure_packet(shared_secret, &None);
+		(p.data, p.attribution_data)
+	}
+
+	/// `crypt_failure_packet` on the data part only (no attribution data).
+	pub fn crypt_failure_data(shared_secret: &[u8; 32], data: Vec<u8>) -> Vec<u8> {
+		let mut p = crate::ln::msgs::OnionErrorPacket { data, attribution_data: None };
+		onion_utils::verif::crypt_failure_packet(shared_secret, &mut p);
+		p.data
+	}
+
+	/// `process_failure_packet` followed by `crypt_failure_packet` (the two steps of relaying).
+	pub fn process_and_crypt_failure_packet(
+		shared_secret: &[u8; 32], data: Vec<u8>, attribution_data: Option<AttributionData>,
+		hold_time: u32,
+	) -> (Vec<u8>, Option<AttributionData>) {
+		let mut p = crate::ln::msgs::OnionErrorPacket { data, attribution_data };
+		onion_utils::verif::process_failure_packet(&mut p, shared_secret, hold_time);
+		onion_utils::verif::crypt_failure_packet(shared_secret, &mut p);
+		(p.data, p.attribution_data)
+	}
+
+	/// The fields of `DecodedOnionFailure` (crate-private) the sender learns from a failure.
+	pub struct DecodedFailure {
+		pub short_channel_id: Option<u64>,
+		pub payment_failed_permanently: bool,
+		pub failed_within_blinded_path: bool,
+		pub hold_times: Vec<u32>,
+		pub onion_error_code: Option<u16>,
+		pub onion_error_data: Option<Vec<u8>>,
+	}
+
+	/// Sender side: `HTLCFailReason::from_msg(..).decode_onion_failure` for an outbound route.
+	pub fn decode_onion_failure<T: secp256k1::Signing, L: Logger>(
+		secp_ctx: &Secp256k1<T>, logger: &L, path: &Path, session_priv: &SecretKey,
+		data: Vec<u8>, attribution_data: Option<AttributionData>,
+	) -> DecodedFailure {
+		let msg = UpdateFailHTLC {
+			channel_id: ChannelId([0; 32]),
+			htlc_id: 0,
+			reason: data,
+			attribution_data,
+		};
+		let source = HTLCSource::OutboundRoute {
+			path: path.clone(),
+			session_priv: *session_priv,
+			first_hop_htlc_msat: 0,
+			payment_id: PaymentId([0; 32]),
+			bolt12_invoice: None,
+		};
+		let d = HTLCFailReason::from_msg(&msg).decode_onion_failure(secp_ctx, logger, &source);
+		DecodedFailure {
+			short_channel_id: d.short_channel_id,
+			payment_failed_permanently: d.payment_failed_permanently,
+			failed_within_blinded_path: d.failed_within_blinded_path,
+			hold_times: d.hold_times,
+			onion_error_code: d.onion_error_code.map(|c| c.failure_code()),
+			onion_error_data: d.onion_error_data,
+		}
+	}
+}
